@@ -79,9 +79,14 @@ def mk_om(spec):
 def build(sp, omit=()):
     """real System from a spec; `omit` lists items to leave unspecified
     ('domain', 'rho:A', 'd:A', 'pot:A|B', 'clo:A|B', 'om:A|B')"""
-    s = pyPRISM.System(list(sp['types']), kT=sp['kT'])
+    if sp.get('kT_via') == 'assign':
+        # the temperature is assigned after construction, as a temperature sweep on one System does
+        s = pyPRISM.System(list(sp['types']))
+        s.kT = sp['kT']
+    else:
+        s = pyPRISM.System(list(sp['types']), kT=sp['kT'])
     if 'domain' not in omit:
-        s.domain = pyPRISM.Domain(length=sp['L'], dr=sp['dr'])
+        s.domain = make_domain(sp)
     for t in sp['types']:
         if 'rho:' + t not in omit:
             s.density[t] = sp['rho'][t]
@@ -100,6 +105,30 @@ def build(sp, omit=()):
             a, b = key.split('|')
             s.omega[a, b] = mk_om(os_)
     return s
+
+
+def make_domain(sp):
+    """the Domain of a spec, reached through the configuration path sp['via']:
+    'dr' (default) constructor with dr | 'dk' constructor with the conjugate dk | 'setters' another domain re-configured
+    through the length and dr setters | 'setters_dk' re-configured through dk then length"""
+    via = sp.get('via', 'dr')
+    L, dr = int(sp['L']), float(sp['dr'])
+    if via == 'dk':
+        return pyPRISM.Domain(length=L, dk=np.pi / (dr * L))
+    if via == 'setters':
+        d = pyPRISM.Domain(length=max(8, L // 2), dr=dr * 2)
+        d.dr = dr
+        d.length = L
+        return d
+    if via == 'setters_dk':
+        d = pyPRISM.Domain(length=max(8, L // 2), dk=0.37)
+        d.length = L
+        d.dk = np.pi / (dr * L)
+        return d
+    return pyPRISM.Domain(length=L, dr=dr)
+
+
+VIAS = ['dr', 'dr', 'dr', 'dk', 'setters', 'setters_dk']
 
 
 def sigma_of(sp, a, b):
@@ -196,6 +225,28 @@ def easy_spec(rng, rank=2, L=128, dr=0.1, eta_max=0.25):
     for (i, j), (a, b) in pairs(types, diagonal=False):
         om[pk(a, b)] = {'t': 'NI'}
     return dict(types=types, dr=dr, L=L, d=d, rho=rho, kT=kT, pot=pot, clo=clo, om=om, fam='easy', eta=eta)
+
+
+def hostile_edits(s, rng):
+    """the user keeps working with the System after createPRISM: every table, the temperature, the domain and the
+    objects stored in the tables are changed.  A PRISM object created earlier must not notice."""
+    for t in s.types:
+        s.density[t] = float(s.density[t] * rng.uniform(1.5, 3.0))
+        s.diameter[t] = float(s.diameter[t] + rng.choice([1, 2, 3]) * s.domain.dr)
+    s.kT = float(s.kT * rng.uniform(1.5, 3.0))
+    for i, (a, b), U in s.potential.iterpairs():
+        U.sigma = 7.77
+        if hasattr(U, 'epsilon'):
+            U.epsilon = -3.0
+        s.closure[a, b].sigma = -1.0
+        s.closure[a, b].potential = np.zeros(3)
+    for i, (a, b), W in s.omega.iterpairs():
+        if hasattr(W, 'length') and not isinstance(getattr(W, 'value', None), np.ndarray):
+            W.length = 77
+        if hasattr(W, 'sigma'):
+            W.sigma = 2.5
+    s.domain.dr = float(s.domain.dr * 2)
+    s.domain.r[:] = -5.0
 
 
 def spec_signature(sp):
